@@ -148,3 +148,57 @@ fn rac_url_scanner() {
         }
     }
 }
+
+// The words a lexer treats specially are written in its source: string / char-array literals harvested from
+// harper-core/src/lexing/*.rs OF THE TREE UNDER CHECK (vx/racrun.py: harvest_lex_literals) are used as fragments.
+// Each literal is put in front of / behind a few fixed heads and tails, and every sub-lexer, lex_token and the tiling of
+// PlainEnglish::parse must meet their contracts on the result. BOUNDED: |literals| x 4 heads x 9 tails.
+include!("/verif/.cache/rac-gen/lex_literals.rs");
+#[test]
+fn rac_lexer_literals() {
+    use crate::parsers::{Parser, PlainEnglish};
+    let lexers: [(&str, fn(&[char]) -> Option<FoundToken>); 13] = [
+        ("lex_regexish", lex_regexish), ("lex_punctuation", lex_punctuation), ("lex_tabs", lex_tabs), ("lex_spaces", lex_spaces),
+        ("lex_newlines", lex_newlines), ("lex_plural_digit", lex_plural_digit), ("lex_hex_number", lex_hex_number),
+        ("lex_long_decade", lex_long_decade), ("lex_number", lex_number), ("lex_url", lex_url), ("lex_email_address", lex_email_address),
+        ("lex_hostname_token", lex_hostname_token), ("lex_word", lex_word),
+    ];
+    let heads = ["", " ", "a", "1"];
+    let tails = ["", "a", " b", "a@b.c", "a@b.co d", "//a.b/c", "1", ".", "\n"];
+    let mut cases = 0u64;
+    let mut nontrivial = 0u64;
+    for lit in RAC_LEX_LITERALS.iter() {
+        for h in heads.iter() {
+            for tl in tails.iter() {
+                let text = format!("{}{}{}", h, lit, tl);
+                let t: Vec<char> = text.chars().collect();
+                for (name, f) in lexers.iter() {
+                    let r = std::panic::catch_unwind(|| f(&t));
+                    cases += 1;
+                    let ok = matches!(&r, Ok(x) if rac_found_ok(t.len(), x));
+                    if matches!(&r, Ok(Some(_))) { nontrivial += 1; }
+                    if !ok {
+                        println!("RAC-CEX lexer_literals {{\"lexer\": \"{}\", \"text\": {:?}, \"result\": {:?}}}", name, text, r.ok());
+                        panic!("sub-lexer contract violated");
+                    }
+                }
+                let r = std::panic::catch_unwind(|| PlainEnglish.parse(&t));
+                cases += 1;
+                let mut ok = r.is_ok();
+                if let Ok(toks) = &r {
+                    let mut cur = 0;
+                    for tok in toks {
+                        if tok.span.start != cur || tok.span.end <= tok.span.start { ok = false; }
+                        cur = tok.span.end;
+                    }
+                    if cur != t.len() { ok = false; }
+                }
+                if !ok {
+                    println!("RAC-CEX lexer_literals {{\"lexer\": \"PlainEnglish::parse\", \"text\": {:?}, \"tokens\": {:?}}}", text, r.ok().map(|v| v.iter().map(|t| (t.span.start, t.span.end)).collect::<Vec<_>>()));
+                    panic!("tiling violated");
+                }
+            }
+        }
+    }
+    println!("RAC-OK lexer_literals cases={} nontrivial={} bound=literals-of-lexing/*.rs({})x4-heads-x9-tails", cases, nontrivial, RAC_LEX_LITERALS.len());
+}
